@@ -14,7 +14,9 @@ use std::sync::Barrier;
 use std::sync::Mutex;
 
 use proptest::strategy::BoxedStrategy;
+use raft_log::api::raft_log_writer::RaftLogWriter;
 use raft_log::Dump;
+use raft_log::DumpApi;
 use raft_log::RaftLog;
 use serde_json::json;
 
@@ -81,6 +83,9 @@ fn act_thread(h: &mut Held, act: LockAct, dir: &str) -> Reply {
             let cfg = lock_config(dir);
             match std::panic::catch_unwind(|| Dump::<VT>::new(cfg)) {
                 Ok(Ok(d)) => {
+                    // an owner uses what it opened: a complete dump (its result does not matter
+                    // here — the directory has a torn tail); it still owns the directory afterwards
+                    let _ = std::panic::catch_unwind(std::panic::AssertUnwindSafe(|| d.write_to_string()));
                     *h = Held::Dump(d);
                     Reply::Ok
                 }
@@ -141,7 +146,12 @@ pub fn hammer(dir: &str, iters: u32, id: u32) -> (u32, u32) {
             }
         } else {
             match Dump::<VT>::new(cfg) {
-                Ok(d) => Held::Dump(d),
+                Ok(d) => {
+                    if i % 2 == 0 {
+                        let _ = std::panic::catch_unwind(std::panic::AssertUnwindSafe(|| d.write_to_string()));
+                    }
+                    Held::Dump(d)
+                }
                 Err(_) => Held::Nothing,
             }
         };
@@ -215,6 +225,86 @@ fn after_one_recovery(before: &Image) -> Image {
     let img = shadowfs::read_image(&d).expect("read ref image");
     remove_dir(&d);
     img
+}
+
+/// Nobody holds the directory. A store is opened here, appends across several chunk rotations,
+/// purges everything and flushes; the oldest purged chunk file is removed behind its back just
+/// before, so that the worker's own removal fails and the worker thread ends. While that store
+/// value is alive every other attempt (same process, other process; store or dump) must be refused.
+fn busy_owner(dir: &str, actors: &[Mutex<Actor>], n_threads: usize) -> Result<(), Fail> {
+    use std::sync::atomic::AtomicU64;
+    use std::sync::atomic::Ordering;
+    static NEXT: AtomicU64 = AtomicU64::new(1 << 40);
+    let threads0 = crate::trace::nr_threads();
+    let mut rl = match std::panic::catch_unwind(|| RaftLog::<VT>::open(lock_config(dir))) {
+        Ok(Ok(rl)) => rl,
+        Ok(Err(e)) => return Err(Fail::new("open-after-drop-refused", format!("every owner was dropped, yet the next open did not succeed: {e}"))),
+        Err(p) => return Err(Fail::new("lock/panic", format!("open panicked: {}", panic_msg(&p)))),
+    };
+    let work = std::panic::catch_unwind(std::panic::AssertUnwindSafe(|| -> Result<(), std::io::Error> {
+        let (t, i0) = match rl.log_state().last() {
+            Some((t, i)) => (t + 1, i + 1),
+            None => (1, 0),
+        };
+        let entries: Vec<((u64, u64), String)> = (0..12u64).map(|k| ((t, i0 + k), format!("busy-{k}"))).collect();
+        rl.append(entries)?;
+        let f1 = NEXT.fetch_add(1, Ordering::Relaxed);
+        rl.flush(Some(crate::types::Cb::new(f1)))?;
+        rl.wait_worker_idle();
+        let oldest = rl.stat().closed_chunks.first().map(|c| rl.config().chunk_path(c.chunk_id));
+        rl.purge((t, i0 + 11))?;
+        if let Some(p) = oldest {
+            let _ = std::fs::remove_file(p);
+        }
+        let f2 = NEXT.fetch_add(1, Ordering::Relaxed);
+        rl.flush(Some(crate::types::Cb::new(f2)))?;
+        // give the worker the time to run into the missing file (bounded; the oracle below does
+        // not depend on whether it did)
+        let t0 = std::time::Instant::now();
+        while crate::trace::nr_threads() > threads0 && t0.elapsed() < std::time::Duration::from_millis(300) {
+            std::thread::sleep(std::time::Duration::from_micros(200));
+        }
+        Ok(())
+    }));
+    if let Err(p) = work {
+        return Err(Fail::new("lock/panic", format!("the owning store panicked while working: {}", panic_msg(&p))));
+    }
+    let worker_gone = crate::trace::nr_threads() <= threads0;
+    let mut granted: Vec<String> = vec![];
+    match std::panic::catch_unwind(|| RaftLog::<VT>::open(lock_config(dir))) {
+        Ok(Ok(_)) => granted.push("RaftLog::open in the same process".into()),
+        Ok(Err(_)) => {}
+        Err(p) => return Err(Fail::new("lock/panic", format!("refused open panicked: {}", panic_msg(&p)))),
+    }
+    match std::panic::catch_unwind(|| Dump::<VT>::new(lock_config(dir))) {
+        Ok(Ok(_)) => granted.push("Dump::new in the same process".into()),
+        Ok(Err(_)) => {}
+        Err(p) => return Err(Fail::new("lock/panic", format!("refused Dump::new panicked: {}", panic_msg(&p)))),
+    }
+    if let Some(a) = actors.get(n_threads) {
+        let mut g = a.lock().unwrap();
+        if let Actor::Proc { stdin, stdout, .. } = &mut *g {
+            for act in [LockAct::OpenLog, LockAct::OpenDump] {
+                match act_proc(stdin, stdout, act) {
+                    Reply::Ok => {
+                        granted.push(format!("{:?} in another process", act));
+                        let _ = act_proc(stdin, stdout, LockAct::Drop);
+                    }
+                    Reply::Err(_) => {}
+                    Reply::Panic(e) => return Err(Fail::new("lock/panic", format!("contender process died: {e}"))),
+                }
+            }
+        }
+    }
+    drop(rl);
+    crate::trace::wait_threads(threads0, crate::driver::WATCHDOG);
+    if !granted.is_empty() {
+        return Err(Fail::new(
+            "open-granted-while-owned",
+            format!("a store that had appended, purged and flushed (its flush worker {} after a purged chunk file vanished) was still alive, yet these attempts succeeded: {:?}", if worker_gone { "had stopped" } else { "was still running" }, granted),
+        ));
+    }
+    Ok(())
 }
 
 struct Outcome {
@@ -342,6 +432,9 @@ fn run_prog(dir: &str, prog: &LockProg) -> Result<Outcome, Fail> {
                 holding[w] = false;
             }
         }
+        // an owner that has been *working* — and whose flush worker has stopped on an I/O error
+        // (a purged chunk file vanished under it) — still owns the directory
+        busy_owner(dir, &actors, prog.threads as usize)?;
         // hammer phase: everybody opens / holds / drops in a tight loop at the same time
         {
             let iters = 60u32;
